@@ -416,6 +416,9 @@ pub unsafe fn k_enter(
                 submitted_before += submitted;
                 if !crate::sched::wait_for_cq(fd, want) {
                     // Nothing else can run: the call would block forever.
+                    if std::env::var("VERIF_SCHED_DEBUG").is_ok() {
+                        eprintln!("would-block-forever: {}", crate::sched::statuses());
+                    }
                     let mut g = k();
                     g.counters.would_block += 1;
                     g.violations.push(super::KViolation {
@@ -436,6 +439,25 @@ pub unsafe fn k_enter(
         }
     }
     crate::sched::point(crate::sched::P_KERNEL_EXIT);
+    // A real kernel submission thread runs in parallel with this system call; under the
+    // baton scheduler give it (and everybody else) the chance to run whenever a caller
+    // comes back from a kernel-thread ring that still has unconsumed submissions, so that
+    // a10's busy-wait for a free slot makes progress.
+    let spin = {
+        let mut g = k();
+        let pending = g.knobs.sqpoll_strict && g.rings.get(&fd).is_some_and(|r| r.sqpoll() && r.can_consume() && r.a10_sq_tail() != r.sq_head);
+        if pending {
+            // Only every n-th time (n chosen per schedule): the kernel thread may well be
+            // slower than a few system calls of a spinning caller.
+            g.sqpoll_spins += 1;
+            g.sqpoll_spins % u64::from(g.knobs.sqpoll_yield_every.max(1)) == 0
+        } else {
+            false
+        }
+    };
+    if spin {
+        crate::sched::yield_now();
+    }
     if ret < 0 {
         set_errno(-ret);
         -1
@@ -483,7 +505,10 @@ fn enter_step(s: &mut Simk, fd: i32, to_submit: u32, min_complete: u32, flags: u
     let sqpoll = s.rings[&fd].sqpoll();
     let submitted = if sqpoll {
         // The kernel thread picks up everything; enter never submits itself.
-        if !s.knobs.sqpoll_strict {
+        // Strict mode needs somebody playing the kernel thread: that is a thread of
+        // the running schedule. Outside of a schedule (before it starts, after it ended)
+        // the kernel thread is modelled as having run by the time the call returns.
+        if !s.knobs.sqpoll_strict || !crate::sched::in_schedule() {
             consume(s, fd, u32::MAX);
         }
         if first { to_submit as i32 } else { 0 }
